@@ -57,6 +57,8 @@ def eval_step(op, ins, p, entry="method"):
     if op == "squeeze":
         ax = p.get("axis")
         ax = None if ax is None else tuple(ax)
+        if ax is not None and p.get("as_int") and len(ax) == 1:
+            ax = int(ax[0])  # the same request with the axis given as a bare int
         if entry == "function":
             return [sr.squeeze(x, ax)]
         if entry == "autoray":
